@@ -131,8 +131,8 @@ class C15(Property):
         "non-trivial = layouts differ or geometry perturbed; distinct by (pair, mode)" % len(PAIRS)
     )
     assumptions = ("coordinates of distinct elements differ by >= 0.25 so the encoding is injective", "crs is None on both sides")
-    cases = {"quick": 2400, "thorough": len(PAIRS) + 6000}
-    min_nontrivial = {"quick": 1500, "thorough": 30000}
+    cases = {"quick": 8000, "thorough": len(PAIRS) + 6000}
+    min_nontrivial = {"quick": 5000, "thorough": 30000}
     exhaustive = {"quick": False, "thorough": True}
 
     def gen(self, rnd, i, tier):
